@@ -22,7 +22,7 @@
    and safe by the kernel (Exec.LocalProofs, vm_compute over a genuinely
    finite domain: Local.lstate with counters saturating at 2). *)
 From Coq Require Import ZArith List Bool.
-From RP Require Import Exec.Model Exec.Oracle Exec.Local Exec.LocalProofs Exec.Proj Exec.Proofs.
+From RP Require Import Exec.Model Exec.Oracle Exec.Local Exec.LocalProofs Exec.Proj Exec.Proofs Exec.ExamProofs.
 Import ListNotations.
 Open Scope Z_scope.
 
@@ -67,6 +67,14 @@ Theorem C07_oracle_clauses_hold_in_model :
     ok_not_both dl ems = true.
 Proof. exact model_clauses. Qed.
 Print Assumptions C07_oracle_clauses_hold_in_model.
+
+(* a named task that was launched has been examined for cancellation after it
+   entered self._tasks (clause named_examined_after_launch; see Props/C08.v) *)
+Theorem C07_named_examined_clause_holds_in_model :
+  forall (sc : scenario) (sched : list choice) (s : state) (tr : list stepobs),
+    NoDup (delivered sc) -> run (init sc) sched = (s, tr) -> ok_named_examined sc tr (quiescent s) = true.
+Proof. exact model_named_examined. Qed.
+Print Assumptions C07_named_examined_clause_holds_in_model.
 
 (* the ownership argument: every run stays, for every delivered uid, inside the
    kernel-checked set of local states on which `Local.safe` holds (whoever
